@@ -30,21 +30,25 @@ Record state := mkState {
   remaining : N;                 (* = length inp, kept to avoid recounting *)
   eof    : bool;                 (* the stream has failed: reads are no-ops *)
   out    : list N;               (* output, most recent byte first *)
-  trace  : list N                (* size of every primitive transfer, most recent first *)
+  trace  : list N;               (* size of every primitive transfer, most recent first *)
+  reflog : list positive         (* keys of the block-reference / string-index fields that passed through Sync *)
 }.
 
 Definition empty_state (input : list N) : state :=
-  mkState (PM.empty Z) (PM.empty (list N)) (PM.empty N) [] input (N.of_nat (length input)) false [] [].
+  mkState (PM.empty Z) (PM.empty (list N)) (PM.empty N) [] input (N.of_nat (length input)) false [] [] [].
 
 Definition get_int (st : state) (k : positive) : Z := match PM.find k (ints st) with Some z => z | None => 0%Z end.
 Definition get_blob (st : state) (k : positive) : list N := match PM.find k (blobs st) with Some b => b | None => [] end.
 Definition get_size (st : state) (k : positive) : N := match PM.find k (sizes st) with Some n => n | None => 0 end.
 Definition set_int (st : state) (k : positive) (z : Z) : state :=
-  mkState (PM.add k z (ints st)) (blobs st) (sizes st) (locals st) (inp st) (remaining st) (eof st) (out st) (trace st).
+  mkState (PM.add k z (ints st)) (blobs st) (sizes st) (locals st) (inp st) (remaining st) (eof st) (out st) (trace st) (reflog st).
 Definition set_blob (st : state) (k : positive) (b : list N) : state :=
-  mkState (ints st) (PM.add k b (blobs st)) (sizes st) (locals st) (inp st) (remaining st) (eof st) (out st) (trace st).
+  mkState (ints st) (PM.add k b (blobs st)) (sizes st) (locals st) (inp st) (remaining st) (eof st) (out st) (trace st) (reflog st).
 Definition set_size (st : state) (k : positive) (n : N) : state :=
-  mkState (ints st) (blobs st) (PM.add k n (sizes st)) (locals st) (inp st) (remaining st) (eof st) (out st) (trace st).
+  mkState (ints st) (blobs st) (PM.add k n (sizes st)) (locals st) (inp st) (remaining st) (eof st) (out st) (trace st) (reflog st).
+
+Definition log_ref (st : state) (k : positive) : state :=
+  mkState (ints st) (blobs st) (sizes st) (locals st) (inp st) (remaining st) (eof st) (out st) (trace st) (k :: reflog st).
 
 Fixpoint assoc_get (l : list (lvar * Z)) (x : lvar) : Z :=
   match l with [] => 0%Z | (y, v) :: r => if x =? y then v else assoc_get r x end.
@@ -52,7 +56,7 @@ Fixpoint assoc_set (l : list (lvar * Z)) (x : lvar) (v : Z) : list (lvar * Z) :=
   match l with [] => [(x, v)] | (y, w) :: r => if x =? y then (x, v) :: r else (y, w) :: assoc_set r x v end.
 Definition get_local (st : state) (x : lvar) : Z := assoc_get (locals st) x.
 Definition set_local (st : state) (x : lvar) (v : Z) : state :=
-  mkState (ints st) (blobs st) (sizes st) (assoc_set (locals st) x v) (inp st) (remaining st) (eof st) (out st) (trace st).
+  mkState (ints st) (blobs st) (sizes st) (assoc_set (locals st) x v) (inp st) (remaining st) (eof st) (out st) (trace st) (reflog st).
 
 (* ---- bytes ---- *)
 Fixpoint le_bytes (w : nat) (z : Z) : list N :=
@@ -72,16 +76,16 @@ Definition encode (p : prim) (z : Z) : list N := le_bytes (N.to_nat (prim_width 
 (* stream primitives: every one of them is one entry of the trace, as in the C++ hook *)
 Definition emit (st : state) (b : list N) : state :=
   mkState (ints st) (blobs st) (sizes st) (locals st) (inp st) (remaining st) (eof st)
-          (rev_append b (out st)) (N.of_nat (length b) :: trace st).
+          (rev_append b (out st)) (N.of_nat (length b) :: trace st) (reflog st).
 
 (* read k bytes: the bytes delivered (all k, or the available prefix, or none after a failure) *)
 Definition read (st : state) (k : N) : list N * state :=
-  if eof st then ([], mkState (ints st) (blobs st) (sizes st) (locals st) (inp st) (remaining st) true (out st) (k :: trace st))
+  if eof st then ([], mkState (ints st) (blobs st) (sizes st) (locals st) (inp st) (remaining st) true (out st) (k :: trace st) (reflog st))
   else if k <=? remaining st then
     (firstn (N.to_nat k) (inp st),
-     mkState (ints st) (blobs st) (sizes st) (locals st) (skipn (N.to_nat k) (inp st)) (remaining st - k) false (out st) (k :: trace st))
+     mkState (ints st) (blobs st) (sizes st) (locals st) (skipn (N.to_nat k) (inp st)) (remaining st - k) false (out st) (k :: trace st) (reflog st))
   else
-    (inp st, mkState (ints st) (blobs st) (sizes st) (locals st) [] 0 true (out st) (k :: trace st)).
+    (inp st, mkState (ints st) (blobs st) (sizes st) (locals st) [] 0 true (out st) (k :: trace st) (reflog st)).
 
 (* overwrite the first bytes of [old] (padded with zeros to n) with what was read *)
 Definition overlay (n : nat) (got old : list N) : list N :=
@@ -245,13 +249,13 @@ Section Eval.
               Ok (set_blob st2 k (take_until_nul (overlay (N.to_nat sz) got [])))
             else Ok (set_blob st1 k [])       (* buf is zero-initialised and nothing is read *)
           end)
-      else (let k := key_of st findex idx in Ok (sync_int st k u32 4))
+      else (let k := key_of st findex idx in Ok (sync_int (log_ref st k) k u32 4))
     | SCStr f idx =>
       (let k := key_of st f idx in
         match m with
         | Wr => let s0 := get_blob st k in
                 Ok (mkState (ints st) (blobs st) (sizes st) (locals st) (inp st) (remaining st) (eof st)
-                            (0 :: rev_append s0 (out st)) (N.of_nat (length s0) + 1 :: trace st))
+                            (0 :: rev_append s0 (out st)) (N.of_nat (length s0) + 1 :: trace st) (reflog st))
         | Rd =>
           if eof st then Ok st
           else
@@ -259,11 +263,11 @@ Section Eval.
             let n := N.of_nat (length s0) in
             if n <? remaining st then
               Ok (set_blob (mkState (ints st) (blobs st) (sizes st) (locals st) (skipn (S (length s0)) (inp st))
-                                    (remaining st - n - 1) false (out st) (n + 1 :: trace st)) k s0)
+                                    (remaining st - n - 1) false (out st) (n + 1 :: trace st) (reflog st)) k s0)
             else
-              Ok (set_blob (mkState (ints st) (blobs st) (sizes st) (locals st) [] 0 true (out st) (n + 1 :: trace st)) k s0)
+              Ok (set_blob (mkState (ints st) (blobs st) (sizes st) (locals st) [] 0 true (out st) (n + 1 :: trace st) (reflog st)) k s0)
         end)
-    | SRef f idx => (let k := key_of st f idx in Ok (sync_int st k u32 4))
+    | SRef f idx => (let k := key_of st f idx in Ok (sync_int (log_ref st k) k u32 4))
     | SRefArr fsize fkeep frefs fidx idx w =>
       (let i := eval_idx st idx in
         let st0 := match m with Wr => clean_refs st fsize fkeep frefs fidx i | Rd => st end in
@@ -271,7 +275,7 @@ Section Eval.
         let st1 := sync_int st0 ksz u32 w in
         let n := Z.to_N (get_int st1 ksz) in
         let st2 := set_size st1 (enc_key frefs i) n in
-        iter_loop (fun s => Ok (sync_int s (enc_key fidx (i ++ [Z.to_N (get_local s 0)])) u32 4)) 0 n st2)
+        iter_loop (fun s => let k := enc_key fidx (i ++ [Z.to_N (get_local s 0)]) in Ok (sync_int (log_ref s k) k u32 4)) 0 n st2)
     | SCleanRefs fsize fkeep frefs fidx idx =>
       (let i := eval_idx st idx in Ok (clean_refs st fsize fkeep frefs fidx i))
     | SVecSize f idx w x =>
@@ -309,4 +313,20 @@ Definition transfers (st : state) : list N := rev_append (trace st) [].
 
 (* a state for writing: same object, fresh output *)
 Definition rewind (st : state) (input : list N) : state :=
-  mkState (ints st) (blobs st) (sizes st) [] input (N.of_nat (length input)) false [] [].
+  mkState (ints st) (blobs st) (sizes st) [] input (N.of_nat (length input)) false [] [] [].
+
+(* ---- entry points for the extracted oracle: uniquely named, so that other families' extracted
+   constants cannot shadow them in the single extracted module ---- *)
+Definition syncir_rd : mode := Rd.
+Definition syncir_wr : mode := Wr.
+Definition syncir_ver (f u s : Z) : version := mkVer f u s.
+Definition syncir_run := run.
+Definition syncir_fresh (input : list N) : state := empty_state input.
+Definition syncir_rewind := rewind.
+Definition syncir_clear_out (st : state) : state :=
+  mkState (ints st) (blobs st) (sizes st) (locals st) (inp st) (remaining st) (eof st) [] [] [].
+Definition syncir_output := output.
+Definition syncir_transfers := transfers.
+Definition syncir_consumed (st : state) : bool := (remaining st =? 0) && negb (eof st).
+Definition syncir_eof (st : state) : bool := eof st.
+Definition syncir_nlog (st : state) : N := N.of_nat (length (reflog st)).
